@@ -117,8 +117,10 @@ def consistent(groups: list[GroupSpec]) -> bool:
     component, and group minimum power <= group inclusion bound, in both directions."""
     for g in groups:
         for b in g.bats:
-            if not (0 <= b.excl <= b.incl and b.cap > 0):
+            if not (0 <= b.excl <= b.incl and b.cap >= 0):
                 return False
+        if sum(b.cap for b in g.bats) <= 0:
+            return False
         for i in g.invs:
             if not 0 <= i.excl <= i.incl:
                 return False
@@ -229,6 +231,12 @@ def group_specs(m: dict, reduced: bool = False) -> list[GroupSpec]:
                           (InvSpec(0.0, 1000.0),))
             if consistent([g]):
                 out.append(g)
+        # a member battery that reports capacity 0 (weight 0 in the group's SoC) but valid power bounds, which still count
+        for soc in (40.0, 60.0):
+            for ie in (0.0, 100.0):
+                g = GroupSpec((BatSpec(soc, 1000.0, 100.0, 1000.0), BatSpec(soc + 15.0, 0.0, 100.0, 600.0)), (InvSpec(ie, 2000.0),))
+                if consistent([g]):
+                    out.append(g)
         # one battery behind two inverters with non-zero exclusion bounds: (a) the battery's inclusion bound leaves a
         # left-over for the second inverter that is smaller than its exclusion bound; (b) a first inverter with a narrow
         # allowed band (inclusion < own exclusion + the next one's)
